@@ -8,9 +8,14 @@ use crate::tok::*;
 use ferrous::pubsub::{pattern_matches, PubSubManager, SubResult, Subscription};
 use std::collections::{BTreeMap, BTreeSet};
 
-pub const CHANNELS: &[&[u8]] = &[b"news", b"news.sports", b"n", b"new", b"", b"x", b"n*", b"ne?s", b"\x00\xff\r\n", b"news.weather"];
+pub const CHANNELS: &[&[u8]] = &[b"news", b"news.sports", b"n", b"new", b"", b"x", b"n*", b"ne?s", b"\x00\xff\r\n", b"news.weather",
+    b"hello", b"hallo", b"[n]ews", b"h]llo", b"news7", b"]", b"-", b"^", b"[abc", b"h\\]llo"];
+/// incl. character classes (eb2d54d): sets, `^` negation, ranges, a failed class after a star, unterminated `[`,
+/// `]` first (empty class), escaped brackets, `-` at the edge, a reversed range, a backslash inside a class
 pub const PATTERNS: &[&[u8]] = &[b"n*", b"ne*", b"news*", b"*", b"news.?ports", b"?", b"news", b"n\\*", b"\\n*", b"*s", b"n*s",
-    b"*.*", b"??ws", b"", b"[n]ews", b"n[a-z]*", b"news\\", b"**", b"*e*s*", b"\x00*"];
+    b"*.*", b"??ws", b"", b"[n]ews", b"n[a-z]*", b"news\\", b"**", b"*e*s*", b"\x00*",
+    b"h[ae]llo", b"h[^e]llo", b"n[^a-d]ws", b"[a-n]*", b"*[0-9]", b"ne[w-z]s", b"[abc", b"n[]ews", b"[]a]", b"[^]", b"[^]]",
+    b"\\[n]ews", b"\\[abc", b"[a-]", b"[z-a]", b"h[\\]]llo", b"[n-]*", b"[^^]", b"*[s]", b"[\x00-\xff]ews"];
 pub const ALPHA: &[u8] = b"ab*?\\";
 
 fn sub_name(s: &Subscription) -> (u8, Vec<u8>) { match s { Subscription::Channel(c) => (0, c.clone()), Subscription::Pattern(p) => (1, p.clone()) } }
@@ -167,6 +172,16 @@ fn text_from(r: &mut Rng, p: &[u8], alpha: &[u8]) -> Vec<u8> {
             b'*' => { for _ in 0..r.below(4) { t.push(*r.pick(alpha)); } k += 1; }
             b'?' => { t.push(*r.pick(alpha)); k += 1; }
             b'\\' if k + 1 < p.len() => { t.push(p[k + 1]); k += 2; }
+            b'[' => {
+                // a member of the class (first ']' ends it), or any byte for a negated one
+                match p[k..].iter().position(|&c| c == b']') {
+                    Some(e) => { let body = &p[k + 1..k + e];
+                                 if body.first() == Some(&b'^') || body.is_empty() { t.push(*r.pick(alpha)); }
+                                 else { let m = *r.pick(body); t.push(if m == b'-' && body.len() >= 3 { body[0] } else { m }); }
+                                 k += e + 1; }
+                    None => { t.push(b'['); k += 1; }
+                }
+            }
             c => { t.push(c); k += 1; }
         }
     }
@@ -185,6 +200,10 @@ pub fn gen(seed: u64, n: usize, tier: &str) -> Vec<Case> {
         op_unsub("UNSUB", 1, Some(&[v(b"a")])), op_unsub("PUNSUB", 1, None), op_unsub("UNSUB", 1, None), vec![b("ISSUB"), i(1)] ] });
     cases.push(Case { id: "w-class".into(), outs: vec![], ops: vec![
         op_names("PSUB", 1, &[v(b"[n]ews")]), vec![b("PUB"), b("news"), b("m")], vec![b("PUB"), b("[n]ews"), b("m")] ] });
+    // class syntax where this matcher differs from Redis (finding glob-class-end): the first ']' ends the class
+    cases.push(Case { id: "w-class-end".into(), outs: vec![], ops: vec![
+        op_names("PSUB", 1, &[v(b"h[\\]]llo")]), op_names("PSUB", 2, &[v(b"[abc")]), op_names("PSUB", 3, &[v(b"[z-a]")]),
+        vec![b("PUB"), b("h]llo"), b("m")], vec![b("PUB"), b("h\\]llo"), b("m")], vec![b("PUB"), b("a"), b("m")], vec![b("PUB"), b("m"), b("m")] ] });
     cases.push(Case { id: "w-unit".into(), outs: vec![], ops: vec![
         op_names("SUB", 1, &[v(b"news")]), op_names("SUB", 2, &[v(b"news")]), op_names("PSUB", 3, &[v(b"news*")]),
         vec![b("PUB"), b("news"), b("hello")], vec![b("PUB"), b("news.sports"), b("goal!")],
@@ -201,6 +220,13 @@ pub fn gen(seed: u64, n: usize, tier: &str) -> Vec<Case> {
     for (k, chunk) in pats.chunks(60).enumerate() {
         let ops = chunk.iter().map(|p| vec![b("MATCHP"), bv(p), i(tl as i64), bv(ALPHA)]).collect();
         cases.push(Case { id: format!("m-{}", k), ops, outs: vec![] });
+    }
+    // classes: exhaustive over the bracket alphabet (a [ ] ^ -) for patterns, (a b - ]) for texts
+    let (bpl, btl) = if tier == "thorough" { (6, 4) } else { (5, 3) };
+    let bpats: Vec<Vec<u8>> = strings_upto(b"a[]^-", bpl).into_iter().filter(|p| p.contains(&b'[')).collect();
+    for (k, chunk) in bpats.chunks(200).enumerate() {
+        let ops = chunk.iter().map(|p| vec![b("MATCHP"), bv(p), i(btl as i64), bv(b"ab-]")]).collect();
+        cases.push(Case { id: format!("mb-{}", k), ops, outs: vec![] });
     }
     // longer random pairs over a richer alphabet, texts derived from the pattern
     let rich: &[u8] = b"abc*?\\[]-^.\x00\xff";
@@ -294,7 +320,7 @@ pub fn judge(c: &Case, outs: &[Vec<Tok>]) -> Vec<String> {
                     got.push((tok_int(&out[pos]), if tok_int(&out[pos + 1]) == 1 { Some(tok_bytes(&out[pos + 2]).to_vec()) } else { None })); pos += 3; }
                 expect.sort(); got.sort();
                 if out.is_empty() || tok_int(&out[0]) != expect.len() as i128 || got != expect {
-                    let class = if classy { " class=pubsub-glob-class" } else { "" };
+                    let class = if classy { " class=glob-class-end" } else { "" };
                     fails.push(format!("FAIL case={} op={} deliveries differ from one per matching subscription (expected {}, got {}){}", c.id, k, expect.len(), got.len(), class));
                 }
             }
@@ -308,7 +334,8 @@ pub fn judge(c: &Case, outs: &[Vec<Tok>]) -> Vec<String> {
 pub fn is_tcp(c: &Case) -> bool { c.ops.first().map_or(false, |o| o.first() == Some(&b("CONN"))) }
 
 const TCH: &[&[u8]] = &[b"news", b"news.sports", b"n", b"x", b"\x00\xff\r\n$5", b"ne?s", b""];
-const TPAT: &[&[u8]] = &[b"n*", b"ne*", b"news*", b"*", b"news.?ports", b"?", b"news", b"n\\*", b"*s", b"\x00*", b"[n]ews", b"**"];
+const TPAT: &[&[u8]] = &[b"n*", b"ne*", b"news*", b"*", b"news.?ports", b"?", b"news", b"n\\*", b"*s", b"\x00*", b"[n]ews", b"**",
+    b"n[a-f]ws", b"[^x]*", b"ne[^a-v]s*", b"[mn]", b"\\[n]ews", b"*[s]", b"[\x00-\x10]*"];
 
 fn payload(r: &mut Rng, serial: &mut u32) -> Vec<u8> {
     *serial += 1;
@@ -431,6 +458,7 @@ fn judge_tcp(c: &Case, outs: &[Vec<Tok>]) -> Vec<String> {
     type Subs = (Vec<Vec<u8>>, Vec<Vec<u8>>);          // channels, patterns (insertion order irrelevant)
     let mut subs: BTreeMap<i128, Subs> = BTreeMap::new();
     let mut queue: BTreeMap<i128, Vec<V>> = BTreeMap::new();   // frames owed to each live client, in publish order
+    let mut deviated = false;                                   // a PUBLISH met a pattern of class glob-class-end
     let bulk = |x: &[u8]| V::Bulk(x.to_vec());
     for (k, (op, out)) in c.ops.iter().zip(outs.iter()).enumerate() {
         let name = tok_bytes(&op[0]).to_vec();
@@ -477,6 +505,8 @@ fn judge_tcp(c: &Case, outs: &[Vec<Tok>]) -> Vec<String> {
                             for d in ids {
                                 let e = &subs[&d]; let mut fr = vec![];
                                 if e.0.contains(ch) { fr.push(V::Array(vec![bulk(b"message"), V::Bulk(ch.clone()), V::Bulk(msg.clone())])); }
+                                // where the class syntax of this matcher differs from Redis (the first ']' ends a class): finding glob-class-end
+                                if e.1.iter().any(|p| p.contains(&b'[') && redis_match(p, ch) != pattern_matches(p, ch)) { deviated = true; }
                                 let mut ps: Vec<&Vec<u8>> = e.1.iter().filter(|p| redis_match(p, ch)).collect(); ps.sort();
                                 for p in ps { fr.push(V::Array(vec![bulk(b"pmessage"), V::Bulk(p.clone()), V::Bulk(ch.clone()), V::Bulk(msg.clone())])); }
                                 count += fr.len() as i64;
@@ -493,9 +523,9 @@ fn judge_tcp(c: &Case, outs: &[Vec<Tok>]) -> Vec<String> {
                 }
                 if quit { if tok_int(&out[0]) != 1 { fails.push(format!("FAIL case={} op={} the connection stays open after QUIT", c.id, k)); } subs.remove(&id); queue.remove(&id); }
                 if got != expect {
-                    let classy = subs.values().any(|e| e.1.iter().any(|p| p.contains(&b'[')));
+                    let classy = deviated;
                     fails.push(format!("FAIL case={} op={} frames received by client {} differ from acknowledgements / matching messages in publish order (expected {}, got {}){}",
-                        c.id, k, id, expect.len(), got.len(), if classy { " class=pubsub-glob-class" } else { "" }));
+                        c.id, k, id, expect.len(), got.len(), if classy { " class=glob-class-end" } else { "" }));
                     // a known class also shifts what the other clients are owed: stop judging this case
                     if classy { return fails; }
                 }
